@@ -94,7 +94,7 @@ def explore(machine, max_depth: int, col: Collector, procs: int | None = None, s
 
     t0 = time.time()
     while frontier and depth < max_depth:
-        results = pmap(_expand, frontier, chunksize=max(1, len(frontier) // 64), procs=procs)
+        results = pmap(_expand, frontier, chunksize=max(1, min(100, len(frontier) // 256)), procs=procs)
         nxt = []
         for hist, outs in zip(frontier, results):
             for ev, key, fails, oc in outs:
